@@ -1,5 +1,127 @@
-"""C19 jobs (native stress + Miri many-seeds)."""
+"""C19 jobs: native thread stress (flowcheck native) and Miri many-seeds (flowcheck miri)."""
+import json
+import os
+import re
+import subprocess
+import time
+from concurrent.futures import ThreadPoolExecutor
+
+import engines
 
 
 def run(pid, job, seed, tier, work):
-    raise NotImplementedError
+    if job["engine"] == "flow":
+        return run_native(pid, job, seed, tier, work)
+    return run_miri(pid, job, seed, tier, work)
+
+
+def _empty(job):
+    return {"job": job, "episodes": 0, "nontrivial": 0, "keys": set(), "violations": [], "inconclusive": {}, "counters": {},
+            "minmax": {}, "samples": [], "hooks": {}, "panics": [], "rule": "", "exhaustive": False, "shards": 0, "infra_error": None}
+
+
+def run_native(pid, job, seed, tier, work):
+    t0 = time.time()
+    res = _empty(job)
+    shards = job.get("shards", engines.NCPU)
+    trials = job["trials"] // shards
+    binp = engines.ENGINES["flow"]["bin"]
+
+    def one(i):
+        out = os.path.join(work, "%s-%d.json" % (job["name"], i))
+        try:
+            p = subprocess.run([binp, "native", "--trials", str(trials), "--seed", str(seed * 1000 + i), "--out", out],
+                               stdout=subprocess.PIPE, stderr=subprocess.PIPE, text=True, timeout=job.get("timeout_s", 900))
+            return out, p.returncode, p.stderr[-2000:]
+        except subprocess.TimeoutExpired:
+            return out, "timeout", ""
+
+    with ThreadPoolExecutor(max_workers=shards) as ex:
+        outs = list(ex.map(one, range(shards)))
+    res["shards"] = shards
+    for out, rc, err in outs:
+        if rc == "timeout":
+            res["inconclusive"]["shard-watchdog(%s)" % job["name"]] = res["inconclusive"].get("shard-watchdog(%s)" % job["name"], 0) + 1
+            continue
+        if rc != 0 or not os.path.exists(out):
+            res["infra_error"] = "flowcheck native exited rc=%s: %s" % (rc, err[-500:])
+            continue
+        d = json.load(open(out))
+        res["episodes"] += d["episodes"]
+        res["nontrivial"] += d["nontrivial"]
+        res["keys"].update(d["keys"])
+        for v in d["violations"]:
+            v["job"] = job["name"]
+            res["violations"].append(v)
+        for k, n in d["inconclusive"].items():
+            res["inconclusive"][k] = res["inconclusive"].get(k, 0) + n
+        for k, n in d["counters"].items():
+            res["counters"][k] = res["counters"].get(k, 0) + n
+        if len(res["samples"]) < 2:
+            res["samples"].extend(d["samples"][:1])
+        res["rule"] = d["rule"]
+    res["distinct"] = len(res["keys"])
+    res["wall_s"] = time.time() - t0
+    return res
+
+
+def run_miri(pid, job, seed, tier, work):
+    """`flowcheck miri --script k` under -Zmiri-many-seeds, sharded by seed range and script."""
+    t0 = time.time()
+    res = _empty(job)
+    n_seeds = job["seeds"]
+    shards = job.get("shards", engines.NCPU)
+    per = max(1, n_seeds // shards)
+    base = (seed % 1000) * 100000
+    env = dict(engines.BASE_ENV)
+    env["RUSTFLAGS"] = engines.CFG
+
+    def one(i):
+        lo = base + i * per
+        hi = lo + per
+        e = dict(env)
+        e["MIRIFLAGS"] = "-Zmiri-disable-isolation -Zmiri-many-seeds=%d..%d" % (lo, hi)
+        cmd = ["cargo", "+nightly", "miri", "run", "--offline", "--bin", "flowcheck", "--target-dir",
+               os.path.join(engines.HARNESS, "target-miri"), "--", "miri", "--script", str(i % 4)]
+        try:
+            p = subprocess.run(cmd, cwd=engines.HARNESS, env=e, stdout=subprocess.PIPE, stderr=subprocess.PIPE, text=True,
+                               timeout=job.get("timeout_s", 1500))
+            return i, lo, hi, p.returncode, p.stdout, p.stderr[-6000:], cmd
+        except subprocess.TimeoutExpired as ex:
+            return i, lo, hi, "timeout", (ex.stdout or b"").decode("utf8", "replace") if isinstance(ex.stdout, bytes) else "", "", cmd
+
+    with ThreadPoolExecutor(max_workers=shards) as ex:
+        outs = list(ex.map(one, range(shards)))
+    res["shards"] = shards
+    res["rule"] = ("Miri interpreter, seeded preemptive thread scheduling (-Zmiri-many-seeds) over 4 scripts with 1-2 waiter threads and 1-2 mutator "
+                   "threads on the real FlowControl; Miri additionally checks data races, weak-memory behaviours and deadlock. Non-trivial: a "
+                   "waiter parked at least once. Distinct: (script, poll-count vector) over seeds.")
+    for i, lo, hi, rc, out, err, cmd in outs:
+        oks = re.findall(r"^FLOW ok (.*)$", out, re.M)
+        res["episodes"] += len(oks)
+        for line in oks:
+            if "parked=0" not in line:
+                res["nontrivial"] += 1
+                res["keys"].add(hash(line) & 0xFFFFFFFFFFFF)
+            if len(res["samples"]) < 2:
+                res["samples"].append({"miri_seed_range": [lo, hi], "line": line})
+        if rc == "timeout":
+            k = "shard-watchdog(%s)" % job["name"]
+            res["inconclusive"][k] = res["inconclusive"].get(k, 0) + 1
+            continue
+        if rc != 0:
+            m = re.search(r"FLOW VIOLATION (\S+) (.*)", out)
+            sig, detail = engines.classify_crash(err)
+            if m:
+                sig, detail = m.group(1).split(":", 1)[1], m.group(2)[:500]
+            if sig:
+                failing = re.findall(r"seed (\d+)", err)
+                res["violations"].append({"property": "C19", "sig": "C19:%s" % sig, "detail": (detail or "") + (" (failing Miri seeds: %s)" % ",".join(failing[:5]) if failing else ""),
+                                          "params": {"scenario": "flow-miri", "ep_seed": lo, "cmd": "MIRIFLAGS='-Zmiri-disable-isolation -Zmiri-many-seeds=%d..%d' %s" % (lo, hi, " ".join(cmd))},
+                                          "history": err.splitlines()[-40:], "job": job["name"]})
+            else:
+                res["infra_error"] = "miri shard %d rc=%s: %s" % (i, rc, err[-600:])
+    res["counters"]["miri_executions"] = res["episodes"]
+    res["distinct"] = len(res["keys"])
+    res["wall_s"] = time.time() - t0
+    return res
